@@ -24,6 +24,7 @@ TARGET = "x = 0.5*LX + G\nd = x + G\nLX = x(k-1)\nMaxTime = 2\nErr_Tolerance = 0
 TARGET_FN = "x = 0.5*LX + fn(G)\nd = fn(x)\nLX = x(k-1)\nMaxTime = 2\nErr_Tolerance = 0.01"
 TARGET_SS = "x = G\nd = x + LX\nLX = x(k-1)\nMaxTime = 2\nErr_Tolerance = 0.01"
 TARGETS = {"plain": (TARGET, {}), "user-function": (TARGET_FN, {"fn": lambda v: 2 * v + 1}), "steady-state-init": (TARGET_SS, {})}
+OTHER_FN = "a = 0.5*a + fn(3)\nb = a + y\ny = 2\nx = 7\nMaxTime = 2"
 OTHER = "a = 0.5*a + 3\nb = a + y\ny = 2\nx = 7\nMaxTime = 2"
 OPS = ['other-model', 'other-solver', 'logs-on', 'logs-off', 'trace', 're-solve', 're-parse', 'target-first']
 
@@ -97,7 +98,8 @@ def history_case(item):
             if op == 'other-model':
                 build_other_model()
             elif op == 'other-solver':
-                o = EquationSolver(OTHER)
+                o = EquationSolver(OTHER_FN)
+                o.AddFunction('fn', lambda v: 100 * v + 7)      # same name as the target's function, different meaning
                 o.SolveEquation()
             elif op == 'logs-on':
                 try:
@@ -190,7 +192,7 @@ import sys, os, tempfile, shutil
 from fractions import Fraction as F
 from sfc_models.equation_solver import EquationSolver
 from sfc_models.utils import Logger
-from vf.props.c17 import TARGETS, OTHER, build_other_model
+from vf.props.c17 import TARGETS, OTHER, OTHER_FN, build_other_model
 hist = %(hist)r
 TARGET, FUNCS = TARGETS[%(tname)r]
 vals = {k: float(F(v)) for k, v in %(vals)r.items()}
@@ -209,7 +211,8 @@ es = EquationSolver(run_equation_reduction=True); resolve = False
 for f_, o_ in FUNCS.items(): es.AddFunction(f_, o_)
 for op in hist:
     if op == 'other-model': build_other_model()
-    elif op == 'other-solver': EquationSolver(OTHER).SolveEquation()
+    elif op == 'other-solver':
+        o_ = EquationSolver(OTHER_FN); o_.AddFunction('fn', lambda v: 100 * v + 7); o_.SolveEquation()
     elif op == 'logs-on': Logger.register_standard_logs(os.path.join(scratch, 'run'))
     elif op == 'logs-off': Logger.cleanup()
     elif op == 'trace': es.TraceStep = 1
